@@ -505,6 +505,7 @@ var clauseKeywords = map[string]bool{
 	"func": true, "on_lock": true, "extern": true, "requires": true, "requires_locked": true, "ensures": true, "modifies": true, "nopanic": true,
 	"loop": true, "specfunc": true, "ghost": true, "ghostsum": true, "ghost_set": true, "lockinv": true, "axiom": true, "trusted": true,
 	"pure": true, "inline": true, "held": true, "acquires": true, "assert": true, "package": true, "invariant": true, "lemma": true, "lemma_at": true, "unknown_calls_modify": true,
+	"assume_after": true,
 }
 
 // splitLabel splits "label: expr" (label is a bare identifier followed by ':' but not '::').
@@ -741,7 +742,10 @@ func (cs *ContractSet) parseContractText(file, pkgPath string, lines []string, l
 		case "acquires":
 			// the function returns holding this mutex (e.g. "result.mu")
 			cur.Acquires = append(cur.Acquires, strings.TrimSpace(rest))
-		case "assert", "lemma_at":
+		case "assert", "lemma_at", "assume_after":
+			// assume_after label: at Callee#k :: expr  (an assumed fact about what an external callee
+			//   without a usable contract did - e.g. a codec -, in the state right after that call
+			//   returned; `result` / `resultN` name the call's results; never checked, listed in the evidence)
 			// assert label: at Callee#k :: expr      (call-site rule: holds whenever that call is reached)
 			// lemma_at label: at Callee#k :: expr    (a mathematical consequence of the facts in force at
 			//   that point which the solvers cannot derive, e.g. pigeonhole; assumed there, never checked,
